@@ -75,9 +75,18 @@ Definition ret_ok (evs : list val) (e : val) : bool :=
 Definition results_ok (evs : list val) : bool :=
   forallb (fun e => if Nat.eqb (code e) 9 then ret_ok evs e else true) evs.
 
+(* "Joe does not panic", seen from the writer: every Send hands the writer a message.  The writer wrapper
+   records a nil *Message as token 999999; the library's own Session dereferences the message it is given, so
+   a Send(nil) IS a panic on Joe's goroutine with the real writer (the scenarios whose writers forward to a
+   real Session show it as status 1).  The harness never publishes a nil message and the unchanged loop
+   replaces the published message only by a non-nil one Put returned. *)
+Definition nil_tok : N := 999999%N.
+Definition sends_carry_message (evs : list val) : bool :=
+  forallb (fun e => if Nat.eqb (code e) 38 then negb (N.eqb (as_n (nth_val 2 e)) nil_tok) else true) evs.
+
 Definition holds_joe_c06 (i o : val) : bool :=
   let evs := events_of i in
-  negb (Nat.eqb (status_of i) 1) && quiet [] evs && results_ok evs.
+  negb (Nat.eqb (status_of i) 1) && quiet [] evs && results_ok evs && sends_carry_message evs.
 
 (* ---- C07 -------------------------------------------------------------------- *)
 Definition all_answered (evs : list val) : bool :=
@@ -121,7 +130,8 @@ Definition shut_res_ok (evs : list val) (e : val) : bool :=
   | _ => false
   end.
 
-Definition holds_joe_c07 (i o : val) : bool :=
+(* first half: every call returns, with the right value; one closer; the loop exits with nobody registered *)
+Definition c07_calls (i : val) : bool :=
   let evs := events_of i in
   let late := after is_exit evs in
   let early := before is_exit evs in
@@ -228,6 +238,25 @@ Definition c03_core (i : val) : bool :=
   && thread_order_ok evs.
 
 Definition holds_joe_c03 (i o : val) : bool := c03_core i.
+
+(* ---- C07, second half -------------------------------------------------------- *)
+(* "every pending and future Publish returns (delivered, or ErrProviderClosed)": a Publish call that returned nil
+   was delivered, whatever Shutdown did meanwhile - the loop took it (loop.errs is what lets Publish return), and
+   every subscriber that was registered and matching when the loop took it (the due list of the C03 pass, computed
+   at loop.errs: between loop.errs and the end of the fan-out the loop removes nobody but a subscriber whose own
+   Send/Flush just failed, after that call) had its Send call for this message.  A request to shut down that arrives
+   while the message is inside Joe (in Put, or in some subscriber's Send with others still to come) changes nothing:
+   the loop looks at j.done only when it is back at its select.  Demanded of runs that ended (status 0). *)
+Definition pub_nil (p : nat) (evs : list val) : bool :=
+  existsb (fun e => is_ev 15 p e && Nat.eqb (a2 e) 0) evs.
+
+Definition delivered_ok (evs : list val) : bool :=
+  let st := c3_run evs in
+  forallb (fun e => if Nat.eqb (code e) 15 && Nat.eqb (a2 e) 0 then has_ev 27 (a1 e) evs else true) evs
+  && forallb (fun jp => negb (pub_nil (snd jp) evs) || existsb (pair_eqb jp) (c_act st)) (c_exp st).
+
+Definition holds_joe_c07 (i o : val) : bool :=
+  c07_calls i && delivered_ok (events_of i).
 
 (* ---- C17 -------------------------------------------------------------------- *)
 Definition is_rep_panic (e : val) : bool :=
